@@ -70,6 +70,50 @@ def int_to_float_bits(x, fty):
     return (sign << (fb + eb)) | (e << fb) | (mant & ((1 << fb) - 1))
 
 
+def float_arith(op, abits, bbits, fty):
+    """IEEE result bits of a (+|-|*|/) b for f64 / f32 operands given as bit patterns (round to nearest even, like the hardware)"""
+    import struct
+    fb, eb = (52, 11) if fty == "f64" else (23, 8)
+    emask = ((1 << eb) - 1) << fb
+    for bits in (abits, bbits):
+        # a NaN operand is propagated (first one wins, made quiet): what x86-64 SSE does; Rust leaves NaN payloads unspecified
+        if bits & emask == emask and bits & ((1 << fb) - 1):
+            return bits | (1 << (fb - 1))
+    if fty == "f64":
+        x = struct.unpack("<d", struct.pack("<Q", abits))[0]
+        y = struct.unpack("<d", struct.pack("<Q", bbits))[0]
+    else:
+        import numpy as np
+        x = np.frombuffer(struct.pack("<I", abits), dtype=np.float32)[0]
+        y = np.frombuffer(struct.pack("<I", bbits), dtype=np.float32)[0]
+    try:
+        if op == "Add":
+            r = x + y
+        elif op == "Sub":
+            r = x - y
+        elif op == "Mul":
+            r = x * y
+        else:
+            if fty == "f64" and y == 0.0:
+                import math
+                r = math.nan if x == 0.0 else math.copysign(math.inf, x) * math.copysign(1.0, y)
+            else:
+                import warnings
+                with warnings.catch_warnings():
+                    warnings.simplefilter("ignore")
+                    r = x / y
+    except OverflowError:
+        import math
+        r = math.inf
+    if r != r:
+        # invalid operation (0/0, inf - inf, 0 * inf): the default NaN of SSE (sign bit set, quiet)
+        return (1 << (fb + eb)) | emask | (1 << (fb - 1))
+    if fty == "f64":
+        return struct.unpack("<Q", struct.pack("<d", r))[0]
+    import numpy as np
+    return int(np.frombuffer(np.float32(r).tobytes(), dtype=np.uint32)[0])
+
+
 class FV:
     """float value carried as bit pattern (IV of u64/u32) or as an opaque cast"""
     __slots__ = ("bits", "ty", "src")
@@ -1163,6 +1207,28 @@ class Executor:
             if op == "Ne":
                 return T.bor(nan, T.cmp("Ne", ka, kb))
             return T.band(T.bnot(nan), T.cmp(op, ka, kb))
+        if isinstance(a, FV) and isinstance(b, FV) and op in ("Add", "Sub", "Mul", "Div") and a.ty == b.ty:
+            from . import builtins as _BI
+            if a.bits is not None and b.bits is not None and is_conc(a.bits) and is_conc(b.bits):
+                _BI._use("float +, -, *, / on concrete operands (host IEEE arithmetic, round to nearest even)")
+                return FV(float_arith(op, int(a.bits), int(b.bits), a.ty), a.ty)
+            # symbolic: z3's floating-point theory on the operands' bit patterns / integer sources (round to nearest even); the result is a
+            # fresh bit-pattern integer tied to the FP term -- decidable in principle, often slow: a timeout ends inconclusive
+            _BI._use("float +, -, *, / on symbolic operands through z3's FP theory (RNE)")
+            sort = z3.Float64() if a.ty == "f64" else z3.Float32()
+            w = 64 if a.ty == "f64" else 32
+
+            def fp(x):
+                if x.bits is not None:
+                    return z3.fpBVToFP(z3.Int2BV(T.I(x.bits), w), sort)
+                if x.src and x.src[0] == "int_to_float":
+                    return z3.fpToFP(z3.RNE(), z3.ToReal(T.I(x.src[1])), sort)
+                raise Unsupported("float operand without bit pattern")
+            fa, fb = fp(a), fp(b)
+            r = {"Add": z3.fpAdd, "Sub": z3.fpSub, "Mul": z3.fpMul, "Div": z3.fpDiv}[op](z3.RNE(), fa, fb)
+            res = T.fresh_int("fbits")
+            st.define([res], [res == z3.BV2Int(z3.fpToIEEEBV(r), False), res >= 0, res < (1 << w)], heavy=True)
+            return FV(res, a.ty)
         if not (isinstance(a, IV) and isinstance(b, IV)):
             raise Unsupported("binop %s on %r, %r" % (op, a, b))
         ty = a.ty
